@@ -14,6 +14,7 @@ structure Spec where
   residue : Nat
   dropOn : Nat         -- the filter answers keep = false for the message with this id (0: never)
   cap : Nat            -- queue capacity
+  dropNeedsMatch : Bool := false  -- keep = false only for a message that also matches (the client's filters)
   deriving Repr, DecidableEq
 
 /-- bookkeeping per registered handler -/
@@ -43,7 +44,8 @@ structure EP where
   deriving Repr
 
 def Spec.matches (s : Spec) (m : Msg) : Bool := s.modulus != 0 && m.action % s.modulus == s.residue
-def Spec.keeps (s : Spec) (m : Msg) : Bool := !(s.dropOn != 0 && m.id == s.dropOn)
+def Spec.keeps (s : Spec) (m : Msg) : Bool :=
+  !(s.dropOn != 0 && m.id == s.dropOn && (!s.dropNeedsMatch || s.matches m))
 
 /-- `Handler.closeWith`: the callback, then the close of the queue -/
 def HS.close (h : HS) : HS := { h with closer := h.closer + 1, closed := h.closed + 1 }
